@@ -18,6 +18,7 @@ META = dict(
               "numbers symbolic), iterable given as list / generator / generator raising at frame k; load_many of the "
               "written file compared with per-frame dump_one + load_one; truncation of the file at every line boundary "
               "(nondeterministic end of file); one corrupted (garbled or missing) numeric field in any frame; load_many of gro / extxyz / fchk "
+              "(PDB frames closed by END, by ENDMDL, by MODEL/ENDMDL with the title before or after the MODEL record) "
               "trajectories written by independent layout writers (1-3 optimisation / IRC points of 2, 1, 3 steps; the harnesses "
               "of C03); trajectories in the published layouts of gro, "
               "xyz, sdf, mol2, pdb with differing atom counts and one frame whose title is empty or blank: load_many == "
@@ -266,7 +267,7 @@ def h_extxyz_mixed(ctx, order=(0, 1, 0)):
             ctx.oblige("frame-equals-single-load", f, cls=f"{cls},frame={i}", detail=where)
 
 
-def _layout_frame(ctx, fmt, k, title):
+def _layout_frame(ctx, fmt, k, title, pdb_style="END", last=False):
     """One frame in the published layout (specs.layouts, no iodata code): text of a single-frame file."""
     from specs import layouts as L
     natom = [2, 1, 3, 2, 1][k % 5]
@@ -286,7 +287,18 @@ def _layout_frame(ctx, fmt, k, title):
         return L.write_mol2(dict(title=title, atoms=atoms, bonds=[(1, 2, "1")] if natom >= 2 else []))
     if fmt == "pdb":
         atoms = [(i + 1, f"{L.NUM2SYM[z]}{i + 1}", "MOL", "A", 1, *xyz[i], 1.0, 0.0, z) for i, z in enumerate(zs)]
-        return L.write_pdb(dict(title=title, atoms=atoms))
+        t = L.write_pdb(dict(title=title, atoms=atoms))
+        # the ways programs close the frames of a PDB trajectory: END / ENDMDL alone / MODEL n ... ENDMDL with the title
+        # before or after the MODEL record and one END at the end of the file
+        body = t[:-4]
+        if pdb_style == "ENDMDL":
+            return body + "ENDMDL\n"
+        if pdb_style == "MODEL":
+            ls = body.splitlines(keepends=True)
+            return ls[0] + f"MODEL     {k + 1:4d}\n" + "".join(ls[1:]) + "ENDMDL\n" + ("END\n" if last else "")
+        if pdb_style == "MODEL-first":
+            return f"MODEL     {k + 1:4d}\n" + body + "ENDMDL\n" + ("END\n" if last else "")
+        return t
     raise ValueError(fmt)
 
 
@@ -299,7 +311,9 @@ def h_text_trajectory(ctx, fmt="gro", nframes=3):
     with stubbed(*mods):
         blank = ctx.choice(list(range(nframes + 1)), label="frame-without-title")
         fill = ctx.choice(["", "   "], label="blank-kind") if blank < nframes else ""
-        texts = [_layout_frame(ctx, fmt, k, fill if k == blank else f"frame number {k}") for k in range(nframes)]
+        style = ctx.choice(["END", "ENDMDL", "MODEL", "MODEL-first"], label="frame-terminator") if fmt == "pdb" else "END"
+        texts = [_layout_frame(ctx, fmt, k, fill if k == blank else f"frame number {k}", pdb_style=style, last=k == nframes - 1)
+                 for k in range(nframes)]
         singles = []
         for k, t in enumerate(texts):
             p1 = ctx.tmp_path(f"one{k}." + ext)
@@ -313,7 +327,7 @@ def h_text_trajectory(ctx, fmt="gro", nframes=3):
         path = ctx.tmp_path(ext)
         ctx.write_text(path, "".join(texts))
         got, err, _ = _load_all(api, path)
-        cls = f"{fmt},blank-title-in-frame={'none' if blank == nframes else blank}"
+        cls = f"{fmt},blank-title-in-frame={'none' if blank == nframes else blank}" + (f",{style}" if fmt == "pdb" else "")
         ctx.oblige("trajectory-loads", err is None, cls=cls, detail=str(err))
         ctx.oblige("one-object-per-frame-in-the-file", len(got) == nframes, cls=cls, detail=f"{len(got)} of {nframes}")
         for k in range(min(len(got), nframes)):
